@@ -178,6 +178,13 @@ def oracle(case, res, fw):
             rcvd_all.append((ev[1], ev[2]))
         if ev[0] == "peerClose1" and s["applied"] and steps[i - 1]["state"] in ("OPEN", "CLOSING"):
             rcvd_all.append(("1byte", None))
+        # the library itself writing a frame (pong, close reply, failure close, auto ping, our close) into a data frame the
+        # application has begun with beginMessageFrame and not yet completed: everything on the wire is garbage from here on
+        if i and steps[i - 1]["flags"].get("sendState") == 3 and steps[i - 1]["state"] == "OPEN" and ev[0] != "sendMessageFrameData" \
+                and any(o[1] in ("wdata", "wping", "wpong", "wclose", "whdr", "wpayload", "badframe") for o in outs):
+            bad.append(("streaming/frame-interleaved-into-unfinished-frame", f"step {i} {ev}: octets {[o[1:] for o in outs if o[1][0] == 'w' or o[1] == 'badframe']} were written while the "
+                        "data frame begun with beginMessageFrame was incomplete: they become its payload (a close frame is lost)"))
+            return bad
         for o in outs:
             k = o[1]
             if k == "escaped":
@@ -197,7 +204,7 @@ def oracle(case, res, fw):
             if k == "wsplitdone":
                 pl = o[3]
                 if not (pl in ("fr", "cc") or set(pl) <= {"x"}):
-                    bad.append(("streaming/frame-corrupted-by-interleaved-write", f"step {i} {ev}: the data frame begun with beginMessageFrame "
+                    bad.append(("streaming/frame-interleaved-into-unfinished-frame", f"step {i} {ev}: the data frame begun with beginMessageFrame "
                                 f"was completed with payload {pl!r}: octets of another frame were written into it"))
             if k == "wclose":
                 close_frames += 1; sent_close = True
